@@ -1,5 +1,5 @@
 """impl -> spec: validate recorded VM executions against FMLVM with TLC (TraceVM.tla)."""
-import os, json
+import os, time, json
 from concurrent.futures import ThreadPoolExecutor
 from common import tlc_or_die, write_ndjson, ToolError, log
 
@@ -43,10 +43,12 @@ def validate(records, workdir, tag='vm', max_events=20000, jvms=6, workers=3, ti
     def one(bi):
         path = os.path.join(workdir, '%s.batch%d.ndjson' % (tag, bi))
         write_ndjson(path, batches[bi])
+        t0 = time.time()
         r = tlc_or_die('TraceVM', env={'TRACES': path}, workers=workers, timeout=timeout, tag='%s%d' % (tag, bi))
         vs = r.lines.get('VERDICT', [])
         if len(vs) != len(batches[bi]):
             raise ToolError('TraceVM produced %d verdicts for %d traces (batch %d)\n%s' % (len(vs), len(batches[bi]), bi, r.stdout[-2000:]))
+        log('[tracevm %s batch %d] %d traces, %d events, %.1fs' % (tag, bi, len(batches[bi]), sum(len(x['events']) for x in batches[bi]), time.time() - t0))
         return r, vs
     with ThreadPoolExecutor(max_workers=jvms) as ex:
         outs = list(ex.map(one, range(len(batches))))
